@@ -17,6 +17,8 @@ pub struct VgenCfg {
     pub bigdec_scale: i64,
     /// unions always take branch 0 (JSON defaults)
     pub first_branch: bool,
+    /// bytes/fixed/decimal/duration/uuid-bytes restricted to ASCII so that their JSON default is unambiguous
+    pub ascii_bytes: bool,
 }
 
 impl VgenCfg {
@@ -29,6 +31,7 @@ impl VgenCfg {
             json_safe: false,
             bigdec_scale: 40,
             first_branch: false,
+            ascii_bytes: false,
         }
     }
     pub fn small() -> Self {
@@ -40,6 +43,7 @@ impl VgenCfg {
             json_safe: false,
             bigdec_scale: 10,
             first_branch: false,
+            ascii_bytes: false,
         }
     }
     pub fn for_defaults() -> Self {
@@ -51,6 +55,7 @@ impl VgenCfg {
             json_safe: true,
             bigdec_scale: 4,
             first_branch: true,
+            ascii_bytes: true,
         }
     }
 }
@@ -252,10 +257,19 @@ fn gen_v(c: &mut Choices, node: &SNode, ctx: &Ctx, depth: usize) -> V {
                 V::Double(c.raw())
             }
         }
-        SType::Bytes => V::Bytes(gen_bytes(c, cfg)),
+        SType::Bytes => {
+            let mut b = gen_bytes(c, cfg);
+            if cfg.ascii_bytes {
+                b.iter_mut().for_each(|x| *x &= 0x7f);
+            }
+            V::Bytes(b)
+        }
         SType::String => V::Str(gen_string(c, cfg)),
         SType::Fixed(_, size) => {
-            let b = if c.chance(1, 4) { vec![[0u8, 0xff, 0x80][c.pick(3)]; *size] } else { c.bytes(*size) };
+            let mut b = if c.chance(1, 4) { vec![[0u8, 0xff, 0x80][c.pick(3)]; *size] } else { c.bytes(*size) };
+            if cfg.ascii_bytes {
+                b.iter_mut().for_each(|x| *x &= 0x7f);
+            }
             V::Fixed(b)
         }
         SType::Enum(_, symbols, _) => V::Enum(c.pick(symbols.len())),
@@ -330,8 +344,13 @@ pub fn nontrivial(node: &SNode, v: &V, env: &Env) -> bool {
     walk(node, v, env, 0)
 }
 
-fn latin1(bytes: &[u8]) -> String {
-    bytes.iter().map(|b| *b as char).collect()
+/// ISO-8859-1 string of the bytes; None if a byte >= 0x80 occurs (the library reads
+/// default strings as UTF-8, a known finding probed separately in C11/C08).
+fn latin1(bytes: &[u8]) -> Option<String> {
+    if bytes.iter().any(|b| *b >= 0x80) {
+        return None;
+    }
+    Some(bytes.iter().map(|b| *b as char).collect())
 }
 
 fn f_to_js(x: f64) -> Option<Js> {
@@ -355,8 +374,8 @@ pub fn default_json(node: &SNode, v: &V, env: &Env) -> Option<Js> {
         (_, V::Long(i)) => Js::int(*i as i128),
         (_, V::Float(b)) => f_to_js(f32::from_bits(*b) as f64)?,
         (_, V::Double(b)) => f_to_js(f64::from_bits(*b))?,
-        (_, V::Bytes(b)) => Js::Str(latin1(b)),
-        (_, V::Fixed(b)) => Js::Str(latin1(b)),
+        (_, V::Bytes(b)) => Js::Str(latin1(b)?),
+        (_, V::Fixed(b)) => Js::Str(latin1(b)?),
         (_, V::Str(s)) => Js::Str(s.clone()),
         (SType::Enum(_, symbols, _), V::Enum(i)) => Js::Str(symbols[*i].clone()),
         (SType::Array(items), V::Array(a)) => {
@@ -382,20 +401,17 @@ pub fn default_json(node: &SNode, v: &V, env: &Env) -> Option<Js> {
         }
         (_, V::Uuid(u)) => match &node.ty {
             SType::String => Js::Str(uuid_text(u)),
-            _ => Js::Str(latin1(u)),
+            // the library refuses string defaults for uuid-on-bytes (known finding, probed in C11)
+            SType::Bytes => return None,
+            _ => Js::Str(latin1(u)?),
         },
         (_, V::Decimal(d)) => match &node.ty {
-            SType::Fixed(_, size) => Js::Str(latin1(&crate::refbin::twos_complement(d, Some(*size))?)),
-            _ => Js::Str(latin1(&crate::refbin::twos_complement(d, None)?)),
+            SType::Fixed(_, size) => Js::Str(latin1(&crate::refbin::twos_complement(d, Some(*size))?)?),
+            _ => Js::Str(latin1(&crate::refbin::twos_complement(d, None)?)?),
         },
         (_, V::BigDecimal(..)) => return None,
-        (_, V::Duration(a, b, c)) => {
-            let mut bytes = vec![];
-            bytes.extend_from_slice(&a.to_le_bytes());
-            bytes.extend_from_slice(&b.to_le_bytes());
-            bytes.extend_from_slice(&c.to_le_bytes());
-            Js::Str(latin1(&bytes))
-        }
+        // the library refuses string defaults for duration (known finding, probed in C11)
+        (_, V::Duration(..)) => return None,
         _ => return None,
     })
 }
